@@ -93,7 +93,24 @@ H("parse_emit_1500", src="h_emit.c", fn="h_parse_emit", props=_EMIT_PROPS, enfor
   replace=["sendProbeMsg"], unwind=8, unwindset={"parseEmit.0": 106}, defines=["V_MTU_FIXED=1500"],
   thorough_only=True, timeout=3000, bounded="frame object of exactly 1500 bytes; descriptor loop completely unwound")
 
+# ---------------------------------------------------------------- lltdBlock.c: observation path (C07 / C19)
+_PQ = ["C07", "C19", "C01", "C02", "C18", "C17", "C05"]
+_LD = {"quick": ["V_LIST_MAX=3"], "thorough": ["V_LIST_MAX=5"]}
+H("parse_probe", src="h_probe_query.c", props=_PQ, enforce=["parseProbe"], unwind=8, unwindset={"v_build_state.0": 50, "lltd_port_memcpy.0": 65}, defines=["V_MTU_FIXED=576", "LLTD_SEE_LIST_MAX=3"],
+  defines_quick=_LD["quick"], defines_thorough=["V_LIST_MAX=5", "LLTD_SEE_LIST_MAX=5"] , must_reach=["end", "recorded"],
+  bounded="observation list of at most 3 nodes (thorough 5); the cap LLTD_SEE_LIST_MAX is compiled as 3 (thorough 5) so that 'list full' is reachable (code uniform in the cap)")
+H("parse_query", src="h_probe_query.c", props=_PQ, enforce=["parseQuery"], unwind=8, unwindset={"parseQuery.0": 8, "lltd_state_clear_seen_probes.0": 8, "parseQuery.1": 8, "v_build_state.0": 50, "lltd_port_memcpy.0": 65},
+  defines=["V_MTU_FIXED=576", "V_TXCAP=160"], defines_quick=_LD["quick"], defines_thorough=_LD["thorough"],
+  must_reach=["end", "answered", "tx"], bounded="observation list of at most 3 nodes (thorough 5)")
+for mtu in (60, 80):
+    H("parse_query_mtu%d" % mtu, src="h_probe_query.c", fn="h_parse_query", props=_PQ, enforce=["parseQuery"], unwind=8,
+      unwindset={"parseQuery.0": 8, "lltd_state_clear_seen_probes.0": 8, "parseQuery.1": 8, "v_build_state.0": 50, "lltd_port_memcpy.0": 65},
+      defines=["V_MTU_FIXED=%d" % mtu, "V_SMALL_MTU=1"], defines_quick=_LD["quick"], defines_thorough=_LD["thorough"],
+      must_reach=["end", "answered", "overflow", "tx"],
+      bounded="small-frame instance MTU=%d (capacity %d) so that 'more observations than fit' is reachable with lists of <= 3 (5) nodes; code is uniform in MTU" % (mtu, (mtu - 34) // 20))
+
 PROPS = {
+    "C07": {"harnesses": ["parse_probe", "parse_query", "parse_query_mtu60", "parse_query_mtu80"]},
     "C06": {"harnesses": ["send_probe", "parse_emit", "parse_emit_strict", "parse_emit_1500"]},
     "C10": {"harnesses": ["send_probe", "parse_emit_strict"]},
     "C11": {"harnesses": ["derive"]},
